@@ -76,7 +76,8 @@ CHECKS = {
         "level_note": "map iteration orders are sampled by repetition, not enumerated; the stage folder is a sibling of the build directory as in wharf's tests.",
         "rule": ("rapid draws (old tree, derivation ops -> new tree, compression, optimize?). Non-trivial: the decoded patch has >=1 "
                  "whole-file series to a different path AND (>=1 overlay file or >=1 ghost). Distinct: SHA-1 of the spec."),
-        "assumptions": ["names ending in .butler-rename-N are never generated (implicit precondition of the commit phase)"],
+        "assumptions": ["in a fifth of the cases the full application is preceded by a whitelisted application of the same patch onto the same bowl object (Bowl.Resume(nil) keeps what is recorded): the commit must still give exactly the new build",
+                        "names ending in .butler-rename-N are never generated (implicit precondition of the commit phase)"],
         "required_classes": {"quick": ["rel:swap", "rel:chain", "rel:rename-or-dup-without-original", "rel:source-of-rename-also-patched", "commit:overlay", "commit:ghost", "kindchange:d->f", "kindchange:f->d", "kindchange:d->l"],
                              "thorough": ["rel:swap", "rel:chain", "rel:rename-or-dup-without-original", "rel:source-of-rename-also-patched", "commit:overlay", "commit:ghost", "series:bsdiff"]},
         "stages": [rapid("inplace", "TestProp", 10000, 200000, qs=16, ts=16, qt=600, tt=5400)],
@@ -103,7 +104,8 @@ CHECKS = {
         "level_text": ("Per generated patch the harness learns the number N of checkpoints offered to an always-saving consumer, then "
                        "enumerates checkpoints k (all when N<=8, else first/last + sampled), lags {0,1,2,random}, and four tail states "
                        "(as left; in-progress output truncated at a length >= the checkpointed offset; bytes after the checkpointed offset "
-                       "overwritten with garbage; later staged files deleted), up to a per-patch cap. Each resume uses a brand-new "
+                       "overwritten with garbage; later staged files deleted; and, for lag 0, the disk exactly as it was at the instant the checkpoint was handed to the consumer - a copy of the output "
+                       "and stage folders taken inside Save, i.e. the process died there and nothing it held in memory reached the disk), up to a per-patch cap. Each resume uses a brand-new "
                        "patcher, bowl and pool and the gob-decoded checkpoint. Also ShouldSave bit patterns and chains of 2-4 interruptions. "
                        "Oracle: resumed run returns nil and the tree equals the new build; liveness: an uncompressed patch with a streamed "
                        "series of >=4 messages must offer >=1 checkpoint; and a calibrated shape (one 4-6 MiB file cut every two blocks by "
